@@ -27,12 +27,13 @@ type SvcScenario struct {
 	K          []int  `json:"k,omitempty"`          // items (agent types = listener kinds = ExC2 endpoints) per connection
 	Interleave int    `json:"interleave,omitempty"` // 0: connection by connection, 1: round robin, 2: connection by connection, last first
 	Disc       []int  `json:"disc,omitempty"`       // disconnect order (connection indices; connections attach in index order)
+	How        []int  `json:"how,omitempty"`        // per disconnect: 0 closing handshake | 1 connection closed without one | 2 TCP reset
 	Collide    string `json:"collide,omitempty"`    // collision case name
 	Child      bool   `json:"child,omitempty"`      // run in this process (set by the parent for the child)
 }
 
 func (sc SvcScenario) Key() string {
-	return fmt.Sprintf("%s/%v/%d/%v/%s", sc.Kind, sc.K, sc.Interleave, sc.Disc, sc.Collide)
+	return fmt.Sprintf("%s/%v/%d/%v/%v/%s", sc.Kind, sc.K, sc.Interleave, sc.Disc, sc.How, sc.Collide)
 }
 
 type svcItem struct {
@@ -71,7 +72,7 @@ func (sr *svcRun) viol(sig, what string, detail map[string]any) {
 	detail["scenario"] = sr.sc
 	w := sr.sc
 	w.Child = false
-	sr.c.Violation(sig, what, map[string]any{"kind": sr.sc.Kind, "k": w.K, "interleave": w.Interleave, "disc": w.Disc, "collide": w.Collide, "detail": detail})
+	sr.c.Violation(sig, what, map[string]any{"kind": sr.sc.Kind, "k": w.K, "interleave": w.Interleave, "disc": w.Disc, "how": w.How, "collide": w.Collide, "detail": detail})
 }
 
 const (
@@ -477,7 +478,11 @@ func (sr *svcRun) disconnects() {
 	sr.s.checkViews(true)
 	for step, d := range sc.Disc {
 		what := fmt.Sprintf("disconnect #%d of connection %d (order %v, %d connections attached)", step+1, d, sc.Disc, n-step)
-		sr.disconnect(d, what, step == len(sc.Disc)-1)
+		how := 0
+		if step < len(sc.How) {
+			how = sc.How[step]
+		}
+		sr.disconnect(d, what, step == len(sc.Disc)-1, how)
 		if sr.s.broken != "" {
 			return
 		}
@@ -485,19 +490,36 @@ func (sr *svcRun) disconnects() {
 }
 
 // disconnect closes connection d and compares state and function afterwards.
-func (sr *svcRun) disconnect(d int, what string, fresh bool) {
+func (sr *svcRun) disconnect(d int, what string, fresh bool, how int) {
 	b, _ := json.Marshal(map[string]any{"scenario": sr.sc, "about_to": what})
 	sr.c.Cur("service-disconnect", b)
 	sr.progress("about to: %s", what)
 	sr.c.Checkpoint()
 	cl := sr.conns[d]
-	// a close frame: the teamserver's read fails and it cleans up after the connection
-	cl.Conn.WriteControl(websocket.CloseMessage, websocket.FormatCloseMessage(websocket.CloseNormalClosure, ""), time.Now().Add(5*time.Second))
-	deadline := time.Now().Add(10 * time.Second)
-	for !cl.Closed() && time.Now().Before(deadline) {
-		time.Sleep(5 * time.Millisecond)
+	switch how {
+	case 1:
+		// the service process ends without a closing handshake (TLS close_notify, FIN)
+		what += " [closed without a closing handshake]"
+		cl.Close()
+	case 2:
+		// the service host goes away: the teamserver's read fails with a reset, and so does
+		// whatever it still tries to write to this connection
+		what += " [TCP reset]"
+		if !cl.Reset() {
+			cl.Close()
+		} else {
+			sr.c.Observe("service-connections-reset", 1)
+		}
+	default:
+		// a close frame: the teamserver's read fails and it cleans up after the connection
+		cl.Conn.WriteControl(websocket.CloseMessage, websocket.FormatCloseMessage(websocket.CloseNormalClosure, ""), time.Now().Add(5*time.Second))
+		deadline := time.Now().Add(10 * time.Second)
+		for !cl.Closed() && time.Now().Before(deadline) {
+			time.Sleep(5 * time.Millisecond)
+		}
+		cl.Close()
 	}
-	cl.Close()
+	sr.c.Observe(fmt.Sprintf("service-disconnects:how=%d", how), 1)
 	sr.gone[d] = true
 	sr.c.Observe("service-disconnects", 1)
 	sr.check(what)
@@ -596,7 +618,7 @@ func (sr *svcRun) collide() {
 	// model keeps it only for name uniqueness
 	sr.check("collision case")
 	if s.broken == "" {
-		sr.disconnect(0, "disconnect of the only connection after collision case "+sr.sc.Collide, true)
+		sr.disconnect(0, "disconnect of the only connection after collision case "+sr.sc.Collide, true, len(sr.sc.Collide)%3)
 	}
 }
 
